@@ -98,12 +98,51 @@ def acct_rule(ctx: Ctx, rid: str = "R09.acct", only=None, penalty_only: bool = F
     r.floor(30 if only is None else 2)
 
 
+READ_BLOCK_REFS = {
+    "WriteBackMemorySystem": '''
+def _read_block(self, decoded_address):
+    block_values = self.cache.read_block(decoded_address)
+    hit = block_values is not None
+    if block_values is None:
+        block_values = self._read_block_from_memory(decoded_address)
+        h, displaced_block = self.cache.write_block(decoded_address, block_values)
+        if displaced_block is not None:
+            db_addr, db_block = displaced_block
+            self._write_block_to_memory(db_addr, db_block)
+    return block_values, hit
+''',
+    "WriteThroughMemorySystem": '''
+def _read_block(self, decoded_address):
+    block_values = self.cache.read_block(decoded_address)
+    hit = block_values is not None
+    if block_values is None:
+        block_values = self._read_block_from_memory(decoded_address)
+        self.cache.write_block(decoded_address, block_values)
+    return block_values, hit
+''',
+    "InstructionMemoryCacheSystem": '''
+def _read_block(self, decoded_address):
+    block_values = self.cache.read_block(decoded_address)
+    hit = block_values is not None
+    if block_values is None:
+        block_values = self._read_block_from_memory(decoded_address)
+        self.cache.write_block(decoded_address, block_values)
+    return block_values, hit
+''',
+}
+
+
 def hit_rule(ctx: Ctx, rid: str = "R09.hit") -> None:
     m = ctx.model
     r = ctx.rule(rid, "hit flag = `block is not None` of the cache lookup, taken before the fill rebinds it")
     funcs = [f for f, _ in counted_methods(m)]
-    for cn in ("WriteBackMemorySystem", "WriteThroughMemorySystem", "InstructionMemoryCacheSystem"):
-        funcs.append(m.method(cn, "_read_block", own=True))
+    # the three lookups: compared with their reference formulation as normal forms (returns as decision
+    # tables: `hit = x is not None ... return x, hit` and `if x is not None: return x, True` are the same)
+    from ..flowspec import compare
+    for cn, ref in READ_BLOCK_REFS.items():
+        f = m.method(cn, "_read_block")
+        compare(r, m, f, ref, f"{cn}._read_block",
+                what="returns (cached block, True) on a hit and (block filled from below, False) on a miss, allocating the fill")
     for f in funcs:
         key = short(f.qname)
         sn = f.params[0]
@@ -134,11 +173,6 @@ def hit_rule(ctx: Ctx, rid: str = "R09.hit") -> None:
             r.check(ok, f"{key}|{h}", f.loc(first or f.node),
                     f"{key}: hit flag `{h}` is not the cache lookup's verdict (must be `{x} is not None` "
                     f"right after `{x} = self.cache.read_block(..)` and before `{x}` is refilled)")
-        if f.name == "_read_block":
-            rets = [n for n in walk_no_nested(f.node) if isinstance(n, ast.Return)]
-            ok = bool(rets) and all(isinstance(x.value, ast.Tuple) and len(x.value.elts) == 2
-                                    and isinstance(x.value.elts[1], ast.Name) and x.value.elts[1].id in hn for x in rets)
-            r.check(ok, f"{key}|return", f.loc(), f"{key}: second result is not the hit flag")
     r.floor(13)
 
 
